@@ -491,6 +491,8 @@ def check_skel(case):
         tags.append('controls')
     if case.get('rules'):
         tags.append('rules')
+    if case.get('shared_names'):
+        tags.append('names_shared_between_nodes_and_links')
     for k in ('tanks', 'pumps', 'valves'):
         if spec[k]:
             tags.append('net:' + k)
@@ -836,10 +838,43 @@ def skel_case(draw, tier='quick'):
     thr = draw(st.one_of(st.sampled_from(THRESHOLDS), st.floats(0.04, 0.6).map(lambda v: round(v, 3))))
     flags = draw(st.sampled_from([(True, True, True)] * 4 + [(b, s, p) for b in (False, True) for s in (False, True)
                                                             for p in (False, True)]))
-    return {'mode': 'skel', 'net': spec, 'rules': rules, 'threshold': thr, 'branch': flags[0], 'series': flags[1],
+    case = {'mode': 'skel', 'net': spec, 'rules': rules, 'threshold': thr, 'branch': flags[0], 'series': flags[1],
             'parallel': flags[2], 'max_cycles': draw(st.sampled_from([None, None, None, None, 0, 1, 2])),
             'use_epanet': draw(st.booleans()), 'copy': draw(st.sampled_from([True, True, False])),
             'excl_junctions': excl_j, 'excl_pipes': excl_p}
+    if draw(st.integers(0, 3)) == 0:
+        _share_names(case, draw(st.integers(0, 1000)))
+    return case
+
+
+def _share_names(case, rot):
+    """EPANET-style names: nodes and links are numbered in separate name spaces, so junction '3' and pipe '3' coexist"""
+    spec = case['net']
+    nodes = [n['name'] for g in ('junctions', 'tanks', 'reservoirs') for n in spec[g]]
+    links = [l['name'] for g in ('pipes', 'pumps', 'valves') for l in spec[g]]
+    nmap = {n: str(1 + (i + rot) % len(nodes)) for i, n in enumerate(nodes)}
+    lmap = {l: str(1 + (i + 2 * rot) % len(links)) for i, l in enumerate(links)} if links else {}
+    for g in ('junctions', 'tanks', 'reservoirs'):
+        for n in spec[g]:
+            n['name'] = nmap[n['name']]
+    for g in ('pipes', 'pumps', 'valves'):
+        for l in spec[g]:
+            l['name'], l['a'], l['b'] = lmap[l['name']], nmap[l['a']], nmap[l['b']]
+    for c in spec.get('controls', []):
+        c['link'] = lmap[c['link']]
+        if c.get('node') is not None:
+            c['node'] = nmap[c['node']]
+    for r in case.get('rules', []):
+        for c in r['if']:
+            if c[0] == 'node':
+                c[1] = nmap[c[1]]
+            elif c[0] == 'link':
+                c[1] = lmap[c[1]]
+        for a in r['then'] + r.get('else', []):
+            a[0] = lmap[a[0]]
+    case['excl_junctions'] = sorted(nmap[j] for j in case['excl_junctions'])
+    case['excl_pipes'] = sorted(lmap[p] for p in case['excl_pipes'])
+    case['shared_names'] = True
 
 
 @st.composite
